@@ -539,6 +539,12 @@ func runORD09(p *Prog, r *RuleRun) {
 				if phase == "call" && tag == "" {
 					r.Unknown(cx.Key(ins, "bbolt.Open(?)"), posOf(p, ins), "bbolt.Open with a path the analysis cannot name")
 				}
+				if phase == "call" && tag != "" && tag != "path:"+fileName {
+					// the temporary DB is built from scratch: whatever an earlier, interrupted attempt left under
+					// that name is removed first (bbolt.Open would otherwise adopt - or choke on - its content)
+					r.Check(f.Must["Remove("+tag+"):ok"], cx.Key(ins, "tmp-fresh"), posOf(p, ins), "leftovers of an interrupted initialisation are removed before the temporary DB is opened",
+						"the temporary meta DB is opened without first removing a file of that name left behind by an interrupted initialisation: bbolt opens the stale file (a torn one makes every later Open fail; a complete one without buckets is renamed into place); path: "+strings.Join(f.Trace, " > "))
+				}
 			case "bbolt.Tx.CreateBucket":
 				if phase == "ok" {
 					if s, ok := strArg(cx, args[1], f); ok {
@@ -549,6 +555,12 @@ func runORD09(p *Prog, r *RuleRun) {
 				if phase == "ok" {
 					if w, known := boolArg(cx, args[1], f); known && w {
 						f.Add("Begin(rw):ok")
+					}
+				}
+			case "os.Remove", "os.RemoveAll":
+				if phase == "ok" {
+					if tag := pathTag(cx, args[0], f); tag != "" {
+						f.Add("Remove(" + tag + "):ok")
 					}
 				}
 			case "os.Rename":
